@@ -11,7 +11,7 @@
 static struct {
         vbi_decoder *vbi;
         double       t;
-        vbi_page    *held;  int held_cc;
+        vbi_page    *held;  int held_cc; const void *held_cn;
         int          hmode;                 /* 0 = consuming handler for everything, 1 = TTX only, 2 = CC only, 3 = none, 4 = ignoring */
         uint64_t     nevents, ev_types, unterminated;
         volatile uint64_t sink;
@@ -21,12 +21,19 @@ static struct {
                      reached_xds_ev, reached_itv, reached_top_index, reached_title, reached_lop_fetch;
 } G;
 
-static size_t bounded_len(const void *s, size_t max)
+/* strings handed to the application live in fixed arrays and are documented as NUL terminated:
+ * an application using them as strings would read past the array otherwise */
+static size_t bounded_len_(const void *s, size_t max, const char *what)
 {
         size_t n = strnlen((const char *) s, max);
-        if (n == max) G.unterminated++;
+        if (n == max) {
+                G.unterminated++;
+                char key[160]; snprintf(key, sizeof key, "string handed to the application without terminator inside its array: %s", what);
+                viol(key, "%zu bytes, none is NUL | during %s | %s", max, cur_op, cur_ctx);
+        }
         return n;
 }
+#define bounded_len(s, max) bounded_len_(s, max, #s)
 
 static void consume_prog_info(const vbi_program_info *pi)
 {
@@ -65,8 +72,18 @@ static void ev_consume(vbi_event *ev, void *ud)
 }
 static void ev_ignore(vbi_event *ev, void *ud) { G.nevents++; }
 
+/* a leaked cache page is identified by its page function: different reference leaks get different keys */
+static void describe_leak(const void *p, size_t n, const char *fn, char *out, size_t len)
+{
+        static const char *FN[] = { "ACI", "EPG", "EACEM_TRIGGER", "DISCARD", "UNKNOWN", "LOP", "DATA", "GPOP", "POP", "GDRCS", "DRCS", "MOT", "MIP", "BTT", "AIT", "MPT", "MPT_EX", "IEC_TRIGGER" };
+        if (strcmp(fn, "_vbi_cache_put_page") || n < offsetof(cache_page, data)) return;
+        int f = ((const cache_page *) p)->function;
+        snprintf(out, len, " [cache page, function %s]", f >= -5 && f <= 12 ? FN[f + 5] : "?");
+}
+
 static void ex_begin(void)
 {
+        leak_describe = describe_leak;
         acct_begin();
         memset(&G, 0, sizeof G);
         op("vbi_decoder_new");
@@ -134,7 +151,7 @@ enum {
         P_POP_R1, P_POP_R3, P_POP_R4, P_DRCS_R1, P_DRCS_R2,
         P_TRIG_A, P_TRIG_B, P_TRIG_C,
         /* enhancement */
-        P_X26_0, P_X26_0L, P_X26_1, P_X26_2, P_X26_15, P_X26_BAD,
+        P_X26_0, P_X26_0L, P_X26_0P, P_X26_0Q, P_X26_1, P_X26_2, P_X26_15, P_X26_BAD,
         P_X27_0, P_X27_1, P_X27_4,
         P_X28_0, P_X28_0POP, P_X28_1, P_X28_3, P_X28_4, P_M29_0, P_M29_1, P_M29_4,
         P_830_1, P_830_1B, P_830_2, P_830_2B, P_IDL_31,
@@ -188,12 +205,12 @@ static void build_packets(void)
         pk_hdr(d = PN(P_HBADSUB, "H100(subcode S3 uncorrectable)"), 1, 0x00, 0, 0); d[6] = 0x00;
         pk_hdr(d = PN(P_HBADFLAGS, "H100(control bits uncorrectable)"), 1, 0x00, 0, 0); d[9] = 0xFF;
 
-        pk_row(PN(P_R1_TEXT, "row1 text+links"), 1, 1, " HELLO 200 see p.301 1/3 >> www.ab.cd  a@b.cd ");
+        pk_row(PN(P_R1_TEXT, "row1 text+links"), 1, 1, " HELLO 200 1/3 www.ab.cd x@y.z 123456789");
         d = PN(P_R1_ATTR, "row1 spacing attributes"); pk_addr(d, 1, 1);
         { static const unsigned char a[] = { 0x0D,'A',0x0E,'B',0x0F,'C',0x0C,0x0B,0x0B,'D',0x0A,0x0A,0x1B,'E',0x1B,0x11,0x7F,0x1A,0x6A,0x19,0x1E,0x01,0x1F,0x1D,0x02,0x1C,0x18,'F',0x08,'G',0x09,0x17,0x35,0x0D,'H',0x0E,0x0E,'I',0x0F,0x0F };
           for (int i = 0; i < 40; i++) d[2 + i] = vbi_par8(a[i]); }
         d = PN(P_R1_BADPAR, "row1 parity errors"); pk_row(d, 1, 1, " PARITY "); for (int i = 6; i < 42; i += 3) d[i] ^= 0x80;
-        d = PN(P_R2_SIZE, "row2 double size at right margin"); pk_row(d, 1, 2, " SIZE"); d[2 + 37] = vbi_par8(0x0F); d[2 + 38] = vbi_par8(0x0F); d[2 + 39] = vbi_par8(0x0E);
+        d = PN(P_R2_SIZE, "row2 double size at right margin"); pk_row(d, 1, 2, " SIZE 7/1234567890 >> p.301"); d[2 + 37] = vbi_par8(0x0F); d[2 + 38] = vbi_par8(0x0F); d[2 + 39] = vbi_par8(0x0E);
         d = PN(P_R23_DH, "row23 double height/size"); pk_row(d, 1, 23, " LAST"); d[2] = vbi_par8(0x0D); d[2 + 10] = vbi_par8(0x0F);
         d = PN(P_R24_FLOF, "row24 flof labels"); pk_addr(d, 1, 24); d[2] = vbi_par8(0x01); pk_text(d, 3, "Red"); d[10] = vbi_par8(0x02); pk_text(d, 11, "Green"); d[20] = vbi_par8(0x03); pk_text(d, 21, "Yel"); d[30] = vbi_par8(0x06); pk_text(d, 31, "Cyan 400");
         pk_row(PN(P_R25, "row25"), 1, 25, " ROW 25 ");
@@ -323,6 +340,10 @@ static void build_packets(void)
         pk_trip(d, 10, 12, 0x06, 0x30);
         pk_trip(d, 11, 40, 0x18, 0x4F);                 /* DRCS mode: normal, sub-page 15 */
         pk_trip(d, 12, 13, 0x0D, 0x6F);                 /* normal DRCS 47 */
+        d = PN(P_X26_0P, "X/26/0 (POP object, pointer 507)"); pk_enh(d, 1, 26, 0);
+        pk_trip(d, 0, 41, 0x04, 0); pk_trip(d, 1, 48, 0x11, 0x20);         /* pointer group 1 low = 507 */
+        d = PN(P_X26_0Q, "X/26/0 (POP object, pointer 511)"); pk_enh(d, 1, 26, 0);
+        pk_trip(d, 0, 41, 0x04, 0); pk_trip(d, 1, 48, 0x11, 0x30);         /* pointer group 1 high = 511 */
         d = PN(P_X26_1, "X/26/1"); pk_enh(d, 1, 26, 1);
         pk_trip(d, 0, 63, 0x04, 39);
         pk_trip(d, 1, 39, 0x0C, 0x41);                  /* double width + height at column 39 */
@@ -487,8 +508,19 @@ static void consume_page(vbi_page *pg, int is_cc, int full)
         }
 }
 
+/* Uninitialised automatic variables of the library contain whatever the stack held before.  Painting the
+ * stack below the caller with one fixed byte makes such reads deterministic (what ASan's malloc fill does for
+ * the heap); '7' is a digit, a letter-free URL character and not a terminator. */
+static void __attribute__((noinline)) stack_paint(void)
+{
+        volatile char a[40000];
+        memset((void *) a, '7', sizeof a);
+        __asm__ volatile("" : : "r"(a) : "memory");
+}
+
 static int fetch_vt(vbi_page *pg, int pgno, int subno, int level, int rows, int nav)
 {
+        stack_paint();
         fill_page(pg);
         if (getenv("C01_TRACE")) {
                 cache_page *cp = _vbi_cache_get_page(G.vbi->ca, G.vbi->cn, pgno, subno, -1);
@@ -499,6 +531,11 @@ static int fetch_vt(vbi_page *pg, int pgno, int subno, int level, int rows, int 
         op("vbi_fetch_vt_page");
         int ok = vbi_fetch_vt_page(G.vbi, pg, pgno, subno, (vbi_wst_level) level, rows, nav);
         if (ok) {
+                /* text[] has 1056 cells, a page uses 25 x 41 = 1025: the rest must be untouched (fill pattern) */
+                for (int i = 1025; i < 1056; i++) {
+                        static const uint8_t fill[8] = { 0xA5, 0xA5, 0xA5, 0xA5, 0xA5, 0xA5, 0xA5, 0xA5 };
+                        if (memcmp(&pg->text[i], fill, 8)) { viol("fetched vbi_page: text[] written beyond row 25", "text[%d] | page %x rows %d level %d | %s", i, pgno, rows, level, cur_ctx); break; }
+                }
                 G.reached_lop_fetch++;
                 if (pgno == 0x900) G.reached_top_index++;
                 for (int i = 16; i < 32; i++) if (pg->drcs[i]) { G.reached_drcs++; break; }
@@ -589,6 +626,7 @@ static void do_search(int pat, int scheme)
         if (scheme >= 2 && np) { start = pk[np / 2].pgno; sub = pk[np / 2].subno; }       /* a cached page: terminates */
         if ((start & 0xFF) == 0xFF) start = 0x100;
         G.search_visits = 0; G.search_bound = 2 * np + 2;
+        stack_paint();
         op("vbi_search_new");
         vbi_search *s = vbi_search_new(G.vbi, start, sub, ucs, CF[pat], RE[pat], search_progress);
         if (!s) { mc_count("search_new_refused", 1); return; }
@@ -666,12 +704,14 @@ static const char *ITVS[] = {
         NULL /* long */, "x<y<z[", "<lid://x>[type:tve]", "<http://a.b/*>[n:%41%00]",
 };
 #define NITVS 7
-static char itv_long[400], itv_cks[80];
+static char itv_long[400], itv_cks[80], itv_256[260];
 
 static void build_letters(void)
 {
         for (int i = 0; i < 360; i++) itv_long[i] = i == 0 ? '<' : (i % 50 == 49 ? '>' : 'a' + i % 26);
         itv_long[360] = 0;
+        for (int i = 0; i < 256; i++) itv_256[i] = 'a' + i % 26;
+        itv_256[256] = 0;
         trigger_with_checksum(itv_cks, sizeof itv_cks, "<http://c.d>[n:k][e:20380101]");
 
         LT_TTX0 = NLT;
@@ -688,7 +728,7 @@ static void build_letters(void)
                 { 0x10, 0x40, "PAC row 11" }, { 0x10, 0x60, "PAC invalid row" }, { 0x11, 0x40, "PAC row 1" }, { 0x14, 0x7F, "PAC row 15 indent 28 u" },
                 { 0x13, 0x5E, "PAC row 12 indent 28" }, { 0x17, 0x4E, "PAC row 9 italic" }, { 0x1F, 0x70, "PAC ch2 row 10 indent" },
                 { 0x11, 0x20, "midrow white" }, { 0x11, 0x2F, "midrow italic u" }, { 0x11, 0x30, "special char" }, { 0x11, 0x39, "transparent space" },
-                { 0x10, 0x2F, "background attr" }, { 0x12, 0x20, "extended char" }, { 0x16, 0x2D, "reserved c1=16" },
+                { 0x10, 0x2F, "background attr" }, { 0x12, 0x20, "extended char" },
         };
         for (unsigned i = 0; i < sizeof CMD / sizeof *CMD; i++) add_letter(LK_CC, 21, CMD[i].c1, CMD[i].c2, NULL, "F1 %s", CMD[i].n);
         add_letter(LK_CC, 21, 'A', 'B', NULL, "F1 text AB");
@@ -702,6 +742,7 @@ static void build_letters(void)
         add_letter(LK_CCTEXT, 21, 0, 0, "ABCDEFGHIJKLMNOPQRSTUVWXYZabcdef 012", "F1 text 36 chars");
         for (int i = 0; i < NITVS; i++) add_letter(LK_ITV, i, 0, 0, NULL, "ITV string %d in T2 + CR", i);
         add_letter(LK_ITV, 100, 0, 0, NULL, "ITV string with checksum + CR");
+        add_letter(LK_ITV, 101, 0, 0, NULL, "ITV 256 characters in T2, no CR");
         /* field 2 */
         add_letter(LK_CC, 284, 0x14, 0x20, NULL, "F2 RCL");
         add_letter(LK_CC, 284, 0x14, 0x27, NULL, "F2 RU4");
@@ -714,7 +755,6 @@ static void build_letters(void)
         add_letter(LK_CCRAW, 284, 0x00, 0x41, NULL, "F2 bad parity pair");
         add_letter(LK_CC, 335, 0x14, 0x25, NULL, "line 335 RU2");
         add_letter(LK_CC, 22, 'P', 'L', NULL, "line 22 text");
-        add_letter(LK_CC, 100, 'x', 'y', NULL, "line 100 (ignored)");
         /* XDS primitives */
         add_letter(LK_CC, 284, 0x01, 0x03, NULL, "XDS start current/title");
         add_letter(LK_CC, 284, 0x02, 0x03, NULL, "XDS continue current/title");
@@ -733,7 +773,7 @@ static void build_letters(void)
         add_letter(LK_CCRAW, 284, 0x01, 0x83, NULL, "XDS start with parity error");
         for (int i = 0; i < NXDSP; i++) add_letter(LK_XDS, i, 0, 0, NULL, "XDS packet: %s", XDSP[i].name);
         add_letter(LK_XDS, 2, 33, 0, NULL, "XDS packet: current title 33 bytes");
-        add_letter(LK_XDS, 2, 34, 0, NULL, "XDS packet: current title 34 bytes");
+        add_letter(LK_XDS, 2, 34, 0, NULL, "XDS packet: current title 15 pairs + (c,0) + pair");
         LT_CC1 = NLT;
 
         LT_MISC0 = NLT;
@@ -829,6 +869,34 @@ static void set_handlers(int mode)
         G.hmode = mode;
 }
 
+/* A vbi_page the application still holds (vbi_unref_page() not called yet) must stay usable.  It carries raw
+ * pointers into cache objects: drcs[] into DRCS pages, drcs_clut into the page's X/28 extension or the
+ * network's magazine.  Asks ASan whether they address freed memory; the key names the pointer and what
+ * happened to the cache in between, not the place where a renderer would crash. */
+static int held_page_dangles(void)
+{
+#ifdef HAVE_ASAN
+        const vbi_page *pg = G.held; int bad = 0;
+        /* what freed it: if the held page itself is gone the cache was flushed (channel switch, network change),
+         * otherwise a newer version replaced the page the pointer leads into */
+        const char *cause = vbi_is_cached(G.vbi, pg->pgno, pg->subno) ? "the page it points into was received again" : "the cache was flushed (channel switch)";
+        if (G.held_cc) return 0;
+        for (int i = 0; i < 32 && !bad; i++)
+                if (pg->drcs[i] && (__asan_address_is_poisoned(pg->drcs[i]) || __asan_address_is_poisoned(pg->drcs[i] + 59))) {
+                        char key[200]; snprintf(key, sizeof key, "held page: vbi_page.drcs[] points into freed memory after %s", cause);
+                        viol(key, "drcs[%d] of page %x/%x | %s", i, pg->pgno, pg->subno, cur_ctx); bad = 1;
+                }
+        if (pg->drcs_clut && (__asan_address_is_poisoned(pg->drcs_clut) || __asan_address_is_poisoned(pg->drcs_clut + 41))) {
+                char key[200]; snprintf(key, sizeof key, "held page: vbi_page.drcs_clut points into freed memory after %s", cause);
+                viol(key, "page %x/%x | %s", pg->pgno, pg->subno, cur_ctx); bad = 1;
+        }
+        if (bad) mc_count("held_page_dangling_pointer_uses_skipped", 1);
+        return bad;
+#else
+        return 0;
+#endif
+}
+
 static void do_read(const letter_t *l)
 {
         vbi_page *pg = __real_malloc(sizeof *pg);
@@ -869,14 +937,17 @@ static void do_read(const letter_t *l)
                 drop_held();
                 if (l->c == 1) {
                         fill_page(pg); op("vbi_fetch_cc_page");
-                        if (vbi_fetch_cc_page(G.vbi, pg, 1, TRUE)) { G.held = pg; G.held_cc = 1; pg = NULL; }
+                        if (vbi_fetch_cc_page(G.vbi, pg, 1, TRUE)) { G.held = pg; G.held_cc = 1; G.held_cn = G.vbi->cn; pg = NULL; }
                 } else for (int i = 0; i < np; i++)
-                        if (fetch_vt(pg, pk[i].pgno, pk[i].subno, l->b, 25, 1)) { G.held = pg; G.held_cc = 0; pg = NULL; break; }
+                        if (fetch_vt(pg, pk[i].pgno, pk[i].subno, l->b, 25, 1)) { G.held = pg; G.held_cc = 0; G.held_cn = G.vbi->cn; pg = NULL; break; }
                 break;
         case RD_HELD_USE:
+                if (G.held && held_page_dangles()) break;
                 if (G.held) {
+                        op_prefix = "held page after later input: ";
                         if (l->b == 0) { consume_page(G.held, G.held_cc, 1); draw_page(G.held, G.held_cc, 0); }
                         else { export_page(G.held, 5, 0); export_page(G.held, 1, 0); }
+                        op_prefix = "";
                 }
                 break;
         case RD_UNREF: drop_held(); break;
@@ -922,10 +993,10 @@ static void do_letter(int id)
         case LK_CCRAW: feed_cc_raw(l->a, l->b, l->c); break;
         case LK_CCTEXT: cc_string(l->a, l->s); break;
         case LK_ITV: {
-                const char *str = l->a == 100 ? itv_cks : (ITVS[l->a] ? ITVS[l->a] : itv_long);
+                const char *str = l->a == 100 ? itv_cks : l->a == 101 ? itv_256 : (ITVS[l->a] ? ITVS[l->a] : itv_long);
                 feed_cc(21, 0x1C, 0x2B);
                 cc_string(21, str);
-                feed_cc(21, 0x1C, 0x2D);
+                if (l->a != 101) feed_cc(21, 0x1C, 0x2D);
                 G.reached_itv++;
                 break; }
         case LK_XDS: {
@@ -935,6 +1006,7 @@ static void do_letter(int id)
                 feed_cc(284, c1, c2); sum = c1 + c2;
                 for (int i = 0; i < len; i += 2) {
                         int a = (unsigned char) pay[i % plen], b = i + 1 < len ? (unsigned char) pay[(i + 1) % plen] : 0;
+                        if (l->b == 34 && i == 30) { b = 0; i--; }       /* 15 full pairs, (c,0), one more pair: 33 bytes through the `filler' path */
                         feed_cc(284, a, b); sum += a + b;
                 }
                 feed_cc(284, 0x0F, (-(sum + 0x0F)) & 0x7F);
